@@ -158,6 +158,10 @@ def eval_app(v, env):
         return _bcast(lambda c_, x, y: x if c_ else y, E(0), E(1), E(2))
     if fn in ("fresh", "asarray", "sort_checked"):
         return E(0)
+    if fn == "full" and len(a) == 2:
+        return E(1)          # constant array: every element is the fill value (representatives use scalar targets)
+    if fn == "full_like" and len(a) == 2:
+        return _bcast(lambda _x, y: y, E(0), E(1))
     if fn == "sort":
         x = E(0)
         return Arr(sorted(x, key=ekey)) if isinstance(x, Arr) else x
